@@ -40,7 +40,7 @@ def calcQ(x):
     theta = torch.linalg.norm(phi, dim=-1, keepdim=True).unsqueeze(-1)
     theta2 = theta**2
     theta4 = theta2**2
-    idx = (theta > torch.finfo(theta.dtype).eps)
+    idx = (theta > torch.finfo(theta.dtype).eps ** (1.0 / 6.0))
     # coef1
     coef1 = torch.zeros_like(theta, requires_grad=False)
     coef1 += idx * torch.nan_to_num((theta - theta.sin()) / (theta2 * theta))
